@@ -300,5 +300,64 @@ def r12_5(ctx):
     return r
 
 
+APA = "transports::sctp::SctpInner::update_advanced_peer_ack_point"
+
+
+def r12_6(ctx):
+    """abandonment is per message: once a (stream, ssn) is in the abandon set, every chunk record of that
+    message is marked abandoned - no per-chunk predicate (acked, in_flight ..) may let a chunk of the message
+    escape, else FORWARD-TSN stops short of the message end and the receiver assembles the remaining tail
+    fragments into a message nobody submitted."""
+    r = RuleResult("R12.6", "K4", "PR-SCTP abandons whole messages: every chunk of an abandoned (stream, ssn) is marked")
+    b = ctx.body(APA)
+    r.scope.append(APA)
+    ws = [(bi, si) for bi, si, st in core.field_writes(b, lambda f: f == "abandoned")
+          if si is not None and b.term_rvalue(st["rv"])[:2] == ("const", 1)]
+    r.need("abandoned = true sites in update_advanced_peer_ack_point", len(ws), 1)
+    for wbi, wsi in ws:
+        hdrs = [h for h, blocks in b.loops() if wbi in blocks]
+        if not hdrs:
+            r.violate(APA, "write:abandoned", b.where(wbi, wsi), "marking is not inside the sweep over the sent queue")
+            continue
+        # innermost loop
+        h, blocks = min(((h, bl) for h, bl in b.loops() if wbi in bl), key=lambda x: len(x[1]))
+        starts, cut = [], set()
+        member_ok = False
+        for sb in blocks:
+            if b.blocks[sb]["t"]["k"] != "switch":
+                continue
+            term, outs = b.switch_info(sb)
+            for tgt, _, meaning in outs:
+                if term[0] == "discr" and mir.has_call(term[1], "::next") and meaning == "Some":
+                    starts.append(tgt)
+                neg, tt = False, term
+                if tt[0] == "un" and tt[1] == "Not":
+                    neg, tt = True, tt[2]
+                if tt[0] == "call" and tt[1].endswith("::contains") and mir.has(tt[2][0], lambda x: x == ("var", "abandon_set") or (x[0] in ("var", "local") and "abandon_set" in str(x))):
+                    key = tt[2][1]
+                    if mir.has_field(key, "stream_id") and mir.has_field(key, "ssn"):
+                        member_ok = True
+                    if isinstance(meaning, bool) and (meaning is neg):
+                        cut.add((sb, tgt))          # not a member: nothing to mark
+                if tt[0] == "field" and tt[2] == "abandoned" and isinstance(meaning, bool) and (meaning is not neg):
+                    cut.add((sb, tgt))              # already marked
+        if not starts:
+            raise core.CheckerError("R12.6: cannot find the iterator of the marking sweep")
+        if not member_ok:
+            r.violate(APA, "key:abandon_set", b.where(wbi, wsi),
+                      "marking is not keyed by membership of (stream_id, ssn) in the abandon set")
+            continue
+        reach = b.reachable(starts, cut_blocks={wbi}, cut_edges=cut)
+        if h in reach:
+            p = b.path_to(starts, h, cut_blocks={wbi}, cut_edges=cut)
+            r.violate(APA, "write:abandoned", b.where(wbi, wsi),
+                      "a chunk of an abandoned message can be skipped by the marking sweep (a per-chunk condition guards the "
+                      "mark): FORWARD-TSN then does not cover the whole message and the receiver delivers its remaining fragments "
+                      "as a message that was never submitted", core.describe_path(b, p) if p else "")
+        else:
+            r.ok({"site": b.where(wbi, wsi), "rule": "in the sweep, contains((stream_id, ssn)) => abandoned = true on every path"})
+    return r
+
+
 def run(ctx):
-    return [r12_1(ctx), r12_2(ctx), r12_2b(ctx), r12_3(ctx), r12_4(ctx), r12_5(ctx)]
+    return [r12_1(ctx), r12_2(ctx), r12_2b(ctx), r12_3(ctx), r12_4(ctx), r12_5(ctx), r12_6(ctx)]
